@@ -147,7 +147,7 @@ impl Sys {
 
 impl System for Sys {
     type Ev = Ev;
-    type Key = (lorawan_device::verif::VerifMac, Option<u32>, Vec<Vec<u8>>);
+    type Key = (lorawan_device::verif::VerifMac, Option<u32>, Vec<Vec<u8>>, String);
 
     fn enabled(&self) -> Vec<Ev> {
         self.alphabet.clone()
@@ -261,7 +261,8 @@ impl System for Sys {
         s.data_rate = 0;
         let acc = &self.core.net.accepted;
         let tail: Vec<Vec<u8>> = acc.iter().rev().take(2).cloned().collect();
-        (s, self.core.net.ref_last, tail)
+        // (with the front-end state: a device left inside a receive procedure has other futures than an idle one)
+        (s, self.core.net.ref_last, tail, format!("{:?}", self.core.st()))
     }
 
     fn alive(&self) -> bool {
